@@ -189,6 +189,28 @@ def rnd_psd(g, n, style):
 PSD_STYLES = ["full", "full", "full", "dyadic", "singular", "dyadic-singular", "diag", "zero"]
 
 
+def neardup_diag(g, n, k):
+    """k diagonal covariances (and per-dimension magnitudes) in which consecutive components share one dominant
+    variance exactly and differ only in variances 2^-44 .. 2^-70 times smaller: the components are distinct, yet
+    equal under any comparison that is relative to the norm of the whole matrix (Eigen's isApprox: 1e-12).  A
+    square root computed for one component is not a square root for the next."""
+    r = g.r
+    big = 2.0 ** r.randint(-4, 40)
+    ib = r.randrange(n)
+    base = [big if a == ib else big * 2.0 ** -r.randint(44, 70) * r.choice([1.0, 1.5, 0.75]) for a in range(n)]
+    out, cur = [], base
+    for i in range(k):
+        if i:
+            cur = [v if a == ib else v * r.choice([0.25, 0.5, 2.0, 4.0, 3.0, 1.0]) for a, v in enumerate(cur)]
+            if cur == out[-1] and n > 1:
+                a = (ib + 1) % n
+                cur = list(cur); cur[a] *= 4.0
+        out.append(cur)
+    Ps = [[[dv[a] if a == b else 0.0 for b in range(n)] for a in range(n)] for dv in out]
+    d = [base[a] ** 0.5 for a in range(n)]
+    return Ps, d
+
+
 def rnd_scales(g, n):
     """per-dimension magnitudes (powers of two, so that exactly representable inputs stay exact): all ones (most
     cases), one tiny / huge overall scale, or mixed scales per dimension"""
@@ -344,6 +366,23 @@ def check_points_linear(X, means, covs, c, n, k, stats, what, dc=0.0):
         stats["sp_contract"] = max(stats.get("sp_contract", 0.0), res / tol)
         if res > tol:
             probs.append(("sqrt-contract", "%s component %d: B B^T differs from c P by %.3g (tolerance %.3g, c = %.6g, ||P|| = %.3g): the columns are not a square root of c P" % (what, i, res, tol, cf, pn)))
+        elif n >= 2 and all(P[a][b] == 0 for a in range(n) for b in range(n) if a != b):
+            # A diagonal covariance decouples: every factorisation (SVD, eigen, Cholesky, LDL^T) leaves the
+            # coordinates separate, so the contract holds entry by entry, relative to sqrt(P_aa P_bb) -- not only
+            # relative to the largest variance.
+            sd = [math.sqrt(float(P[a][a])) for a in range(n)]
+            mr = [abs(float(m[a])) for a in range(n)]
+            br = [max([abs(float(v)) for v in B[a]] + [0.0]) for a in range(n)]
+            worst = 0.0
+            for a in range(n):
+                for b in range(n):
+                    t_ab = (C_SQRT * n * EPS * abs(cf) + dc) * sd[a] * sd[b] + 16 * n * EPS * (br[a] * (mr[b] + br[b]) + br[b] * (mr[a] + br[a])) + 1e-300
+                    e_ab = abs(float(BBt[a][b] - c * P[a][b]))
+                    if e_ab / t_ab > worst:
+                        worst, wa, wb, we, wt = e_ab / t_ab, a, b, e_ab, t_ab
+            stats["sp_contract_diag"] = max(stats.get("sp_contract_diag", 0.0), worst)
+            if worst > 1.0:
+                probs.append(("sqrt-contract", "%s component %d (diagonal covariance): (B B^T)[%d][%d] differs from c P[%d][%d] = %.6g by %.3g (tolerance %.3g relative to sqrt(P_aa P_bb)): the columns are not a square root of c P" % (what, i, wa, wb, wa, wb, float(c * P[wa][wb]), we, wt)))
     return probs, Bs
 
 
@@ -360,7 +399,13 @@ def sp_case(g, tier):
     style = r.choice(PSD_STYLES)
     skind, d = rnd_scales(g, n0)
     Ps = [scale_cov(rnd_psd(g, n0, style), d) for _ in range(k)]
+    if n0 >= 2 and r.random() < 0.12:
+        k = max(k, r.choice([2, 3]))
+        style, skind = "neardup-diag", "neardup"
+        Ps, d = neardup_diag(g, n0, k)
     means = [[v * d[i] for i, v in enumerate(g.vec(n0))] for _ in range(k)]
+    if style == "neardup-diag" and r.random() < 0.5:
+        means = [list(means[0]) for _ in range(k)]
     Qs = []
     for z in nzs:
         _, dz = rnd_scales(g, z)
@@ -546,6 +591,10 @@ def ut_case(g, tier, idx):
     pstyle = r.choice(PSD_STYLES)
     skind, d = rnd_scales(g, nx)
     Ps = [scale_cov(rnd_psd(g, nx, pstyle), d) for _ in range(k)]
+    if nx >= 2 and r.random() < 0.08:
+        k = max(k, r.choice([2, 3]))
+        pstyle, skind = "neardup-diag", "neardup"
+        Ps, d = neardup_diag(g, nx, k)
     means = [[v * d[i] for i, v in enumerate(g.vec(nx))] for _ in range(k)]
     Qin = []
     if nz:
@@ -557,6 +606,9 @@ def ut_case(g, tier, idx):
         Nadd = scale_cov(rnd_psd(g, ny, r.choice(["full", "dyadic", "singular", "zero"])), dn)
     if skind in ("tiny", "small", "large", "huge"):
         bv = [v * d[0] for v in bv]
+    if skind == "neardup":
+        # rescale every input dimension to order one, so that the small variances are visible in the output
+        A = [[A[i][j] / (d[j] if j < nx else 1.0) for j in range(n)] for i in range(ny)]
     meta = {"mode": mode, "nx": nx, "nz": nz, "ny": ny, "k": k, "alpha": alpha, "beta": beta, "kappa": kappa, "valid": valid, "fail_data": fail_data,
             "A": A, "b": bv, "means": means, "Ps": Ps, "Qin": Qin, "Nadd": Nadd, "astyle": astyle, "pstyle": pstyle, "scale": skind}
     return ut_line(meta), meta
